@@ -143,6 +143,25 @@ def getS (j : Json) (k : String) : R String := do (← j.getObjVal? k).getStr?
 def getI (j : Json) (k : String) : R Int := do (← j.getObjVal? k).getInt?
 def getNL (j : Json) (k : String) : R NodeList := do nlOf (← j.getObjVal? k)
 
+def getN (j : Json) (k : String) : R Nat := do
+  let i ← getI j k
+  pure i.toNat
+
+def instrOf (j : Json) : R Instr := do
+  let i ← getS j "i"
+  match i with
+  | "union" => pure (.union (← getN j "dst") (← getN j "a") (← getN j "b"))
+  | "intersect" => pure (.intersect (← getN j "dst") (← getN j "a") (← getN j "b"))
+  | "add" => pure (.add (← getN j "a") (← getN j "b"))
+  | "removeNodes" => pure (.removeNodes (← getN j "a") (← strList (← j.getObjVal? "ids")))
+  | "relateNode" => pure (.relateNode (← getN j "a") (← nodeOf (← j.getObjVal? "n")) (← getS j "at") (← getI j "ty"))
+  | "relateList" => pure (.relateList (← getN j "a") (← getN j "b") (← getS j "at") (← getI j "ty"))
+  | "nodeGraph" => pure (.nodeGraph (← getN j "dst") (← getN j "a") (← getS j "id"))
+  | "nodeSiblings" => pure (.nodeSiblings (← getN j "dst") (← getN j "a") (← getS j "id"))
+  | "nodeDescendants" => pure (.nodeDescendants (← getN j "dst") (← getN j "a") (← getS j "id") (← getI j "depth"))
+  | "purlType" => pure (.purlType (← getN j "dst") (← getN j "a") (← getS j "t"))
+  | _ => throw s!"unknown instruction {i}"
+
 def run (j : Json) : R Json := do
   let op ← getS j "op"
   match op with
@@ -175,6 +194,13 @@ def run (j : Json) : R Json := do
             | .none => Json.str "nil"
             | .ambiguous => Json.str "ambiguous"
             | .found n => jNode n)
+  | "hist" => do
+      let regs ← (← arrOf (← j.getObjVal? "regs")).toList.mapM nlOf
+      let prog ← (← arrOf (← j.getObjVal? "prog")).toList.mapM instrOf
+      -- the registers after every step
+      let states := (prog.foldl (fun (st : List NodeList × List (List NodeList)) i =>
+          let r := exec st.1 i; (r, st.2 ++ [r])) (regs, [])).2
+      pure (Json.arr (states.map (fun rs => Json.arr (rs.map jNL).toArray)).toArray)
   | "update" => do pure (jNode ((← nodeOf (← j.getObjVal? "n")).update (← nodeOf (← j.getObjVal? "m"))))
   | "augment" => do pure (jNode ((← nodeOf (← j.getObjVal? "n")).augment (← nodeOf (← j.getObjVal? "m"))))
   | _ => throw s!"unknown op {op}"
